@@ -19,3 +19,7 @@ NATIVE_COVERS = {"cull": ["cull"]}
 def native(tier, seed):
     from vf import opt_native
     return [opt_native.sweep(tier, seed)]
+
+
+# thorough tier: deliberate edits that must turn an obligation red (applied to a scratch copy, never to /repo)
+MUTATIONS = [('contracts.optimization', 'cull', 'dask/optimization.py', '                if d not in seen:', '                if d in seen:'), ('contracts.taskspec', 'cull', 'dask/_task_spec.py', '        wupdate(v.dependencies)', '        pass')]
